@@ -2,9 +2,10 @@
 """C03 reference: two-body propagation by classical elements in 50-digit arithmetic (mpmath).
 
 Run with python3-vt (has mpmath).  stdin: one case per line
-    <id> GM x y z vx vy vz dt  X Y Z VX VY VZ
-all numbers as 16-hex-digit IEEE doubles ("nan" allowed for the last six = the result of the
-code under test).  The doubles are taken as exact inputs.  stdout: one JSON object per line with
+    <id> GM x y z vx vy vz dt  X Y Z VX VY VZ  [dx dy dz dvx dvy dvz  DX DY DZ DVX DVY DVZ]
+all numbers as 16-hex-digit IEEE doubles ("nan" allowed for the results = the output of the
+code under test; the optional 12 numbers are a tangent vector and the tested tangent-map
+result: the reference tangent is a central difference of the 100-digit flow, relative step 1e-25).  The doubles are taken as exact inputs.  stdout: one JSON object per line with
 the reference state (as doubles), orbit parameters and the relative errors of the tested result
 computed in 50-digit arithmetic.
 
@@ -196,6 +197,37 @@ def main():
                 o["finite"] = True
             else:
                 o["finite"] = False
+        if len(vals) >= 26 and R["kind"] != "line":
+            d = [mpf(c) for c in vals[14:20]]
+            dres = vals[20:26]
+            sc = norm(x) / (norm(d[:3]) if norm(d[:3]) != 0 else 1)
+            sv = norm(v) / (norm(d[3:]) if norm(d[3:]) != 0 else 1)
+            try:
+                # the classical-element route loses log10(1/e) digits for near-circular orbits and the
+                # difference quotient another 25: work with 100 digits here
+                mp.dps = 100
+                h = mpf(10) ** (-25) * min(sc, sv)
+                Rp = propagate(GM, tuple(x[i] + h * d[i] for i in range(3)), tuple(v[i] + h * d[3 + i] for i in range(3)), dt)
+                Rm = propagate(GM, tuple(x[i] - h * d[i] for i in range(3)), tuple(v[i] - h * d[3 + i] for i in range(3)), dt)
+                tx = [(Rp["x"][i] - Rm["x"][i]) / (2 * h) for i in range(3)]
+                tv = [(Rp["v"][i] - Rm["v"][i]) / (2 * h) for i in range(3)]
+                o["tref"] = [d2h(float(c)) for c in tx + tv]
+                if all(c == c and abs(c) != float("inf") for c in dres):
+                    # natural size of a tangent vector at the end point (pure position or pure velocity
+                    # perturbations and tiny steps give components far below it)
+                    rel = norm(d[:3]) / norm(x) + (norm(d[3:]) / norm(v) if norm(v) != 0 else 0)
+                    ntx, ntv = max(norm(tx), rn * rel), max(norm(tv), vn * rel)
+                    ex = norm(tuple(mpf(dres[i]) - tx[i] for i in range(3)))
+                    ev = norm(tuple(mpf(dres[3 + i]) - tv[i] for i in range(3)))
+                    o["terrx"] = float(ex / ntx) if ntx != 0 else float(ex)
+                    o["terrv"] = float(ev / ntv) if ntv != 0 else float(ev)
+                    o["tfinite"] = True
+                else:
+                    o["tfinite"] = False
+            except Exception as ex:  # noqa
+                o["terror"] = repr(ex)
+            finally:
+                mp.dps = 50
         out.write(json.dumps(o) + "\n")
     out.flush()
 
